@@ -78,7 +78,8 @@ def plain(tree):
 
 
 def build(tree, placement=None, ntables=1, table_order="fwd", free_at=None, seqs=(7, 6), stale=None, table_seq=5,
-          second_object_table=False, fileobj_threshold=0x800, version=0x400, slack=4, stale_tree=None):
+          second_object_table=False, fileobj_threshold=0x800, version=0x400, slack=4, stale_tree=None,
+          stale_positions=None):
     """placement: list (per preorder entry) of table index 1..ntables (default round-robin).
     table_order: 'fwd' | 'rev' order of the entries inside each table (rev puts children before parents).
     free_at: set of global positions before which a Free entry is inserted.
@@ -167,18 +168,27 @@ def build(tree, placement=None, ntables=1, table_order="fwd", free_at=None, seqs
         placed_tabs.append((where, size, body))
         where += size
     if stale:
-        save = list(fileobjs)
-        st_ents = flatten(stale_tree)
-        vals = [e["value"] for e in st_ents]
-        layout(vals)
-        st = layout(vals)
-        layout(None)  # restore offsets of the active layout
-        for t, sq in stale.items():
-            body = struct.pack("<HHHI", 2, t, sq, 0) + st[t]
-            size = (len(body) + 0xFFF) & ~0xFFF
-            # stale copies are listed *before* and *after* the active ones, depending on the index parity
-            placed_tabs.insert(0 if t % 2 else len(placed_tabs), (where, size, body))
-            where += size
+        def stale_tables(tr):
+            st_ents = flatten(tr)
+            vals = [e["value"] for e in st_ents]
+            layout(vals)
+            st_ = layout(vals)
+            layout(None)  # restore the offsets of the active layout
+            return st_
+
+        default_st = stale_tables(stale_tree) if stale_tree is not None else None
+        n_ins = 0
+        for t, sqs in stale.items():
+            for item in (sqs if isinstance(sqs, (list, tuple)) else [sqs]):
+                sq, st = (item[0], stale_tables(item[1])) if isinstance(item, (list, tuple)) else (item, default_st)
+                body = struct.pack("<HHHI", 2, t, sq, 0) + st[t]
+                size = (len(body) + 0xFFF) & ~0xFFF
+                # stale copies are listed before, between and after the active ones
+                pos = [0, len(placed_tabs), len(placed_tabs) // 2][n_ins % 3] if stale_positions is None else \
+                    min(stale_positions[n_ins % len(stale_positions)], len(placed_tabs))
+                placed_tabs.insert(pos, (where, size, body))
+                where += size
+                n_ins += 1
     for off, size, body in placed_tabs:
         img[off:off + len(body)] = body
         oe.append((2, off, size, 1))
